@@ -48,6 +48,9 @@ def gen_cases(rng, tier, rnd):
         a = genpda.big_closure_pda(rng, depth=10, needle=False)
         s, rank = genfa.rename(a, rng)
         cases.append({'kind': 'pda', 'spec': s, 'rank': rank, 'abs': hx(a), 'limit': rng.choice([2500, 3000, 5000]), 'words': [s['Sigma'][0]]})
+    if rnd % 4 == 0:
+        a = genfa.long_epsilon_chain_nfa(rng)
+        cases.append({'kind': 'nfa', 'spec': a, 'rank': {}, 'abs': hx([len(a['Q']), a['q0']]), 'words': ['a'], 'long': True})
     while len(cases) < n:
         r = rng.random()
         if r < 0.15:
@@ -255,7 +258,7 @@ def _run_phase(case, env, obj, out, dig):
         site = fn.__name__
         for w in case['words']:
             acc = N.accepts(w)
-            st, val, ticks = call(env, fn, obj, w, budget=BUDGET)
+            st, val, ticks = call(env, fn, obj, w, budget=(60_000_000 if case.get('long') else BUDGET))
             if not record(st, val, ticks, site, w):
                 if out.get('stop'):
                     break
